@@ -67,3 +67,31 @@ Definition macro_log (st : fstate) (target : str) (L : N) : list nat :=
    `lvl <= STATIC_MAX_LEVEL && lvl <= max_level() && logger().enabled(..)` *)
 Definition macro_enabled (st : fstate) (target : str) (L : N) : bool :=
   N.leb L static_max && N.leb L (gmax st) && enabled_at (cur st) target L.
+
+(* ---- inside Handle::set_config: program points and re-entrant logging ----
+   The three statements in program order give two observable intermediate
+   points: `mid` after `log::set_max_level(new max)` (global max already new,
+   installed tree still the old one) and `fin` after `self.shared.store(..)`.
+   The store swaps the new SharedLogger in and THEN releases the previous one:
+   the previous configuration's appenders are dropped inside the store, after
+   the swap, i.e. in state `fin`.  A record an old appender logs through the
+   `log!` macro from its `Drop` (deterministic same-thread re-entrancy) is
+   therefore filtered by the NEW global max and routed by the NEW tree. *)
+Definition set_config_points (st : fstate) (cfg : config) : option (fstate * fstate) :=
+  match build cfg with
+  | Some t => Some ({| gmax := max_level t; cur := cur st |}, {| gmax := max_level t; cur := t |})
+  | None => None
+  end.
+
+Definition drop_probe (st : fstate) (cfg : config) (target : str) (L : N) : option (list nat) :=
+  match set_config_points st cfg with
+  | Some (_, fin) => Some (macro_log fin target L)
+  | None => None
+  end.
+
+(* `config.root_mut().set_level(l)` on an already built Config, before it is
+   handed to init_config / set_config: the only post-build mutator of the
+   public API (config/runtime.rs: Config::root_mut, Root::set_level) *)
+Definition root_set_level (cfg : config) (l : N) : config :=
+  {| c_appenders := c_appenders cfg; c_root_level := l; c_root_apps := c_root_apps cfg;
+     c_loggers := c_loggers cfg |}.
